@@ -48,6 +48,7 @@ type PathResult struct {
 	Funcs       map[string]int
 	Stubs       map[string]int
 	UnknownBr   int
+	ModelHits   int
 	Inputs      map[string]string // a model of the path (filled on demand)
 }
 
@@ -75,6 +76,8 @@ type exec struct {
 	obsTerms       []obsTerm
 	unwind         map[string]int
 	aux            []*Term
+	known          map[string]bool
+	curModel       evalEnv
 	lastEnv        evalEnv
 	choiceInputs   map[string]string
 	pendingAbort   *abortPath
@@ -106,6 +109,96 @@ func (ex *exec) assume(c *Term) {
 	}
 	ex.pc = append(ex.pc, c)
 	ex.solver.Assert(c)
+	ex.record(c, true)
+	if ex.curModel != nil {
+		if mv, err := evalTerm(c, ex.curModel); err != nil || !mv.B {
+			ex.curModel = nil
+		}
+	}
+}
+
+// record notes the truth value of c (and simple consequences) for this path.
+func (ex *exec) record(c *Term, v bool) {
+	if ex.known == nil {
+		ex.known = map[string]bool{}
+	}
+	switch c.op {
+	case "not":
+		ex.record(c.args[0], !v)
+		return
+	case "and":
+		if v {
+			for _, a := range c.args {
+				ex.record(a, true)
+			}
+		}
+	case "or":
+		if !v {
+			for _, a := range c.args {
+				ex.record(a, false)
+			}
+		}
+	case "<":
+		if v && len(c.args) == 2 {
+			ex.known[mkApp("<", SBool, c.args[1], c.args[0]).key] = false
+			ex.known[mkApp("=", SBool, c.args[0], c.args[1]).key] = false
+			ex.known[mkApp("=", SBool, c.args[1], c.args[0]).key] = false
+		}
+	case "=":
+		if len(c.args) == 2 {
+			ex.known[mkApp("=", SBool, c.args[1], c.args[0]).key] = v
+			if v && c.args[0].sort == SInt {
+				ex.known[mkApp("<", SBool, c.args[0], c.args[1]).key] = false
+				ex.known[mkApp("<", SBool, c.args[1], c.args[0]).key] = false
+			}
+		}
+	}
+	ex.known[c.key] = v
+}
+
+// knownValue returns the recorded truth value of c, if any.
+func (ex *exec) knownValue(c *Term) (bool, bool) {
+	if c.isConst() {
+		return c.b, true
+	}
+	if v, ok := ex.known[c.key]; ok {
+		return v, true
+	}
+	switch c.op {
+	case "not":
+		if v, ok := ex.knownValue(c.args[0]); ok {
+			return !v, true
+		}
+	case "and":
+		all := true
+		for _, a := range c.args {
+			v, ok := ex.knownValue(a)
+			if ok && !v {
+				return false, true
+			}
+			if !ok {
+				all = false
+			}
+		}
+		if all {
+			return true, true
+		}
+	case "or":
+		all := true
+		for _, a := range c.args {
+			v, ok := ex.knownValue(a)
+			if ok && v {
+				return true, true
+			}
+			if !ok {
+				all = false
+			}
+		}
+		if all {
+			return false, true
+		}
+	}
+	return false, false
 }
 
 // decide chooses among mutually exclusive alternatives whose conditions are
@@ -131,6 +224,24 @@ func (ex *exec) decide(conds []*Term, what string) int {
 		// the single remaining alternative is implied (exhaustiveness)
 		return nonFalse
 	}
+	// recorded facts of this path (deterministic in original run and replay)
+	{
+		unknown := -1
+		nUnknown := 0
+		for i, c := range conds {
+			v, ok := ex.knownValue(c)
+			if ok && v {
+				return i
+			}
+			if !ok {
+				nUnknown++
+				unknown = i
+			}
+		}
+		if nUnknown == 1 {
+			return unknown // all others known false; exhaustive
+		}
+	}
 	ex.res.Decisions++
 	if ex.pos < len(ex.trace) {
 		alt := ex.trace[ex.pos]
@@ -147,8 +258,28 @@ func (ex *exec) decide(conds []*Term, what string) int {
 	}
 	// frontier: find feasible alternatives
 	var feas []int
+	var firstModel evalEnv
+	// many alternatives: if the current model picks one and no other is possible, one query settles it
+	if len(conds) > 2 && ex.curModel != nil {
+		for i, c := range conds {
+			if mv, err := evalTerm(c, ex.curModel); err == nil && mv.Sort == SBool && mv.B {
+				if ex.solver.CheckWith(tNot(c)) == Unsat {
+					ex.pos++
+					ex.taken = append(ex.taken, i)
+					m := ex.curModel
+					ex.assume(c)
+					ex.curModel = m
+					return i
+				}
+				break
+			}
+		}
+	}
 	for i, c := range conds {
 		if c.isConst() && !c.b {
+			continue
+		}
+		if kv, ok := ex.knownValue(c); ok && !kv {
 			continue
 		}
 		if len(feas) == 0 && i == lastNonFalse(conds) {
@@ -156,14 +287,30 @@ func (ex *exec) decide(conds []*Term, what string) int {
 			feas = append(feas, i)
 			break
 		}
-		switch ex.solver.CheckWith(c) {
+		// the current model already witnesses one alternative
+		if ex.curModel != nil {
+			if mv, err := evalTerm(c, ex.curModel); err == nil && mv.Sort == SBool && mv.B {
+				feas = append(feas, i)
+				if len(feas) == 1 {
+					firstModel = ex.curModel
+				}
+				ex.res.ModelHits++
+				continue
+			}
+		}
+		r, env := ex.fullModel(c)
+		switch r {
 		case Sat:
 			feas = append(feas, i)
+			if len(feas) == 1 {
+				firstModel = env
+			}
 		case Unknown:
 			ex.res.UnknownBr++
 			feas = append(feas, i)
 		}
 	}
+	ex.curModel = firstModel
 	if len(feas) == 0 {
 		ex.abort("infeasible", "no feasible alternative: "+what)
 	}
@@ -176,9 +323,8 @@ func (ex *exec) decide(conds []*Term, what string) int {
 	}
 	ex.pos++
 	ex.taken = append(ex.taken, first)
-	if len(feas) > 1 || true {
-		ex.assume(conds[first])
-	}
+	ex.assume(conds[first])
+	ex.curModel = firstModel // a model of pc ∧ conds[first] by construction (or nil)
 	return first
 }
 
